@@ -45,6 +45,8 @@ broadcast use {crate::ax::axiom_ref_into_self, crate::ax::axiom_ref_into_self_ob
 /// machine-range precondition on scales of arithmetic contracts: |s| <= 2^61
 pub spec const SB: int = 0x2000_0000_0000_0000;
 pub open spec fn sb(s: int) -> bool { -SB <= s <= SB }
+/// wider bound (2^62) for a requested target scale
+pub open spec fn sb2(s: int) -> bool { -2 * SB <= s <= 2 * SB }
 
 // ------------------------------------------------------------------ views
 impl BigDecimal {
@@ -232,4 +234,40 @@ pub proof fn lemma_trunc_is_round_down(i: int, k: int)
     if i == 0 { assert(0int / p == 0) by { lemma_div_basics(p); } }
     else if i > 0 { assert(1 * (n / p) == n / p); }
     else { assert(-1 * (n / p) == -(n / p)); }
+}
+
+// ------------------------------------------------------------------ rounding to a precision
+/// (ri, rs) is (i, s) rounded at its p-th significant digit under `mode`: exact and zero-padded to p digits
+/// when the input has at most p digits
+pub open spec fn prec_round_post(i: int, s: int, p: int, mode: RoundingMode, ri: int, rs: int) -> bool {
+    let d = ndigits(iabs(i));
+    &&& rs == s + (p - d)
+    &&& (d <= p ==> ri == i * pow10(p - d))
+    &&& (d > p ==> ri == round_int(i, d - p, mode))
+}
+
+/// with_prec's remainder test: for i >= 0 the truncated quotient plus [remainder has no leading zero and its
+/// leading digit is >= 5] is HalfUp rounding; the contract demands the mirror image for i < 0
+pub proof fn lemma_with_prec_round(i: int, k: int)
+    requires k >= 1
+    ensures ({
+        let p = pow10(k); let n = iabs(i); let q = n / p; let r = n % p;
+        round_mag(n, k, RoundingMode::HalfUp, i < 0) == q + (if p < 10 * r && 2 * r >= pow10(ndigits(r)) { 1int } else { 0int })
+    })
+{
+    let p = pow10(k); let n = iabs(i); let q = n / p; let r = n % p;
+    lemma_pow10_pos(k);
+    lemma_mod_bound(n, p);
+    lemma_pow10_succ(k - 1);
+    if r == 0 { }
+    else {
+        lemma_ndigits_bounds(r);
+        if p < 10 * r {
+            // 10^(k-1) < r < 10^k : r has exactly k digits
+            lemma_ndigits_unique(r, k);
+        } else {
+            // r <= 10^(k-1): 2r < 10^k unless k-1 == 0 ... r <= p/10 so 2r <= p/5 < p
+            assert(2 * r < p);
+        }
+    }
 }
